@@ -64,3 +64,55 @@ func VT_C05_CollectionWritableFields() {
 	vtWritableSequence(func(m *T5, opts ...WriteOption) (proto.Message, error) { return c.Update("a", m, opts...) },
 		func() *T5 { g, _ := c.Get("a"); return g.(*T5) })
 }
+
+// vtTol5 is a tolerance equivalence on default_int32 (what a resource uses to de-duplicate its event stream).
+type vtTol5 struct{ tol int64 }
+
+func (t vtTol5) Compare(x, y proto.Message) bool {
+	if x == nil || y == nil {
+		return x == nil && y == nil
+	}
+	a, b := x.(*T5), y.(*T5)
+	if a == nil || b == nil {
+		return a == nil && b == nil
+	}
+	d := int64(a.DefaultInt32) - int64(b.DefaultInt32)
+	return vt.And(d <= t.tol, -d <= t.tol, a.DefaultInt64 == b.DefaultInt64)
+}
+
+// The equivalence configured on a resource only de-duplicates events: a successful masked write is stored exactly,
+// however close it is to the stored value (Value and Collection, tolerance / exact / no equivalence).
+func VT_C05_WriteStoredWhateverTheEquivalence() {
+	var eqOpt Option = EmptyOption{}
+	switch vt.Choose("equivalence", 3) {
+	case 0:
+		tol := int64(vt.Int32("tolerance"))
+		vt.Assume(tol >= 0)
+		eqOpt = WithEquivalence(vtTol5{tol})
+	case 1:
+		eqOpt = WithNoDuplicates()
+	}
+	init, w := vtT5("init"), vtT5("w")
+	initCopy := proto.Clone(init).(*T5)
+	var got proto.Message
+	var err error
+	var after *T5
+	if vt.Choose("resource", 2) == 0 {
+		v := NewValue(eqOpt, WithInitialValue(init))
+		got, err = v.Set(w, WithUpdatePaths("default_int32"))
+		after = v.Get().(*T5)
+	} else {
+		c := NewCollection(eqOpt, WithInitialRecord("a", init))
+		got, err = c.Update("a", w, WithUpdatePaths("default_int32"))
+		g, _ := c.Get("a")
+		after = g.(*T5)
+	}
+	vt.Assert(err == nil, "masked-write-succeeds")
+	if err != nil {
+		return
+	}
+	vt.Assert(after.DefaultInt32 == w.DefaultInt32, "scalar-inside-the-mask-equals-the-written-one")
+	vt.Assert(after.DefaultInt64 == initCopy.DefaultInt64, "field-outside-the-mask-unchanged")
+	vt.Assert(proto.Equal(got, after), "write-returns-what-is-stored")
+	vt.Reach("done")
+}
